@@ -18,8 +18,6 @@ ctx = dict(
         (r'(?<![\w>.])evt_\.ready\(\)', 'EV_evt_ready(this)'),
         (r'(?<![\w>.])destructOp_\(this\)', 'EV_destroy_operation(this)'),
         (r'(?<![\w>.])func\(\)', 'EV_func(this, desired)'),
-        # general rule missing from the table: a loop whose body is the empty statement
-        (r'while \((!EV_evt_ready\(this\))\)\s*;', r'while (\1) { }'),
     ],
 )
 
@@ -67,9 +65,11 @@ SPEC = dict(
         'state_init': dict(file=H, kind='expr', sig=r'std::atomic<_future_state> state_\{([^}]*)\}'),
         'abandon': dict(file=H, sig=r'void abandon\(\) noexcept', within=BASE, must_contain=[r'compare_exchange_strong']),
         'complete': dict(file=H, sig=r'void complete\(_future_state desired, Func func\) noexcept', within=BASE,
-                         must_contain=[r'compare_exchange_strong', r'negotiate_deletion']),
+                         must_contain=[r'compare_exchange_strong']),
         'negotiate_deletion': dict(file=H, sig=r'void negotiate_deletion\(_future_state expected\) noexcept', within=BASE),
-        'drop': dict(file=H, sig=r'void drop\(\) noexcept', within=BASE, loops={0: DROP_LOOP}),
+        'drop': dict(file=H, sig=r'void drop\(\) noexcept', within=BASE, loops={0: DROP_LOOP},
+                     # general rule missing from the table: a loop whose body is the empty statement (drop() has no do-while)
+                     ctx=dict(pre=[(r'\bwhile \(([^;{}]*)\)\s*;', r'while (\1) { }')])),
         'destruct_op': dict(file=H, sig=r'void destruct_op\(\) noexcept', within=BASE),
         'deleter': dict(file=H, sig=r'deleter\(_spawn_future_op_base\* base, _future_state state\) noexcept', within=IMPL,
                         ctx=dict(pre=del_pre)),
@@ -95,19 +95,24 @@ SPEC = dict(
         dict(name='complete', harness='h_complete', enforce='sfo_complete', replace=['sfo_negotiate_deletion']),
         dict(name='negotiate_deletion', harness='h_negotiate_deletion', enforce='sfo_negotiate_deletion'),
         dict(name='drop', harness='h_drop', enforce='sfo_drop', defines=['VF_ASSUME_VALUE_STORE_NOTHROW'], expect_loop_obligations=True),
+        # the honest rely (set_value's callback may turn value into error before evt_.set()): exposes the drop() stale-state defect
+        dict(name='drop_value_store_throws', harness='h_drop', enforce='sfo_drop', expect_loop_obligations=True),
         dict(name='future_continuation', harness='h_continuation', enforce='future_continuation'),
         dict(name='deleter', harness='h_deleter', enforce='sfo_impl_deleter'),
         dict(name='store_value', harness='h_store_value', enforce='receiver_store_value'),
         dict(name='store_error', harness='h_store_error', enforce='receiver_store_error'),
         dict(name='lemma_rely_guarantee', harness='lemma_rely_guarantee', mode='lemma'),
         dict(name='lemma_init', harness='lemma_init', mode='lemma'),
-        dict(name='lemma_interleavings', harness='lemma_interleavings', mode='lemma', defines=['VF_ASSUME_VALUE_STORE_NOTHROW']),
+        dict(name='lemma_interleavings', harness='lemma_interleavings', mode='lemma'),
+        # the stop callback's lifetime as the templates implement it (registered at connect, deregistered when the future's op state dies):
+        # exposes abandon() on freed state and drop() reaching std::terminate()
+        dict(name='lemma_interleavings_callback_lifetime_as_coded', harness='lemma_interleavings', mode='lemma', defines=['VF_STOP_CALLBACK_LIFETIME_AS_CODED']),
     ],
     assumptions=[
         'each party calls its entry points once, as the templates around them do: the spawned operation calls complete() once; a future is either dropped (drop(), never started) or started (continuation runs once after evt_ fires); abandon() runs at most once (inplace_stop_callback, C03)',
         'abandon() runs only while the future is started and its continuation has not yet deleted the shared state (the stop callback is in fact registered at connect time and outlives the continuation: see the report; not discharged here)',
         'drop() is not raced by abandon(): a connected-but-never-started future that received a stop request is not covered (drop() would find abandoned/complete and reach std::terminate)',
-        'units drop and lemma_interleavings assume the value-storing callback of set_value does not throw (no value->error store between complete()\'s CAS and evt_.set())',
+        'unit drop assumes the value-storing callback of set_value does not throw (no value->error store between complete()\'s CAS and evt_.set())',
         'async_manual_reset_event: set() makes ready() true and wakes the waiter, does not touch the event after waking it (C16); evt_.ready()/set() are event stubs',
         'the spin in drop() is proved partially correct only (the operation eventually calls evt_.set())',
         'allocator round-trip in deleter (copy allocator, destroy, deallocate) are event stubs; allocator semantics (C12) not reached',
